@@ -334,4 +334,57 @@ theorem run_ref (h : History) : ∀ (m s : Store) (t0 : Nat), R t0 m s →
         exact mono_ge (e2 :: h2) now (by simpa [TTLStore.Monotone] using hmono) e he
       · exact hmono.2
 
+/-! ## Sweeps split into a scan and a later, re-checking delete phase -/
+
+theorem monoM_ge : ∀ (h : List (Nat × MStep)) (t : Nat),
+    (match h with | [] => True | e :: _ => t ≤ e.1) ∧ monoM h = true → ∀ e ∈ h, t ≤ e.1 := by
+  intro h
+  induction h with
+  | nil => intro _ _ e he; cases he
+  | cons a h ih =>
+    intro t hh e he
+    cases he with
+    | head => exact hh.1
+    | tail _ hmem =>
+      cases h with
+      | nil => cases hmem
+      | cons b h2 =>
+        have hm := hh.2
+        simp only [monoM, Bool.and_eq_true, decide_eq_true_eq] at hm
+        exact ih t ⟨Nat.le_trans hh.1 hm.1, hm.2⟩ e hmem
+
+theorem monoM_tail {a : Nat × MStep} {h : List (Nat × MStep)} (hm : monoM (a :: h) = true) :
+    (∀ e ∈ h, a.1 ≤ e.1) ∧ monoM h = true := by
+  cases h with
+  | nil => exact ⟨(fun _ he => nomatch he), rfl⟩
+  | cons b h2 =>
+    simp only [monoM, Bool.and_eq_true, decide_eq_true_eq] at hm
+    exact ⟨monoM_ge (b :: h2) a.1 ⟨hm.1, hm.2⟩, hm.2⟩
+
+/-- Delete phases that re-check expiry, for ANY key lists (in particular lists collected by
+scans of earlier states), interleaved anywhere: the calls answer as the reference. -/
+theorem runM_ref (h : List (Nat × MStep)) : ∀ (m s : Store) (t0 : Nat), R t0 m s →
+    (∀ e ∈ h, t0 ≤ e.1) → monoM h = true → allChecked h = true →
+    runM h m = TTLStore.run defaultTTL (callsOf h) s := by
+  induction h with
+  | nil => intros; rfl
+  | cons e h ih =>
+    intro m s t0 hR hge hmono hchk
+    obtain ⟨now, st⟩ := e
+    have hnow : t0 ≤ now := hge (now, st) List.mem_cons_self
+    have htail := monoM_tail hmono
+    cases st with
+    | call op =>
+      have hst := step_ref (R_mono hnow hR) op
+      simp only [runM, callsOf, TTLStore.run]
+      rw [hst.1]
+      congr 1
+      exact ih _ _ now hst.2 htail.1 htail.2 (by simpa [allChecked] using hchk)
+    | sweepDelete c ks =>
+      cases c with
+      | false => simp [allChecked] at hchk
+      | true =>
+        simp only [runM, callsOf]
+        exact ih _ _ now (sweep_ref (R_mono hnow hR) ks) htail.1 htail.2 (by simpa [allChecked] using hchk)
+
 end Tunnox.C13
